@@ -131,60 +131,83 @@ def _decode_ir(L):
     return env.vars["bpm"]
 
 
-def _validation_shape():
-    """round(self.bpm, k) != self.bpm -> raise   (or no validation at all)."""
+def _validation_conds(bpm_ir):
+    """IR of every `if <test>: raise` condition of BPMEvent.__post_init__, with self.bpm := bpm_ir
+    (straight-line assignments before a test are evaluated)."""
     import chartparse.sync as S
     pi = S.BPMEvent.__dict__.get("__post_init__")
     if pi is None:
-        return "none"
+        return [], []
     fdef, body = fn_body(pi)
-    if not body:
-        return "none"
-    if len(body) == 1 and isinstance(body[0], ast.If) and len(body[0].body) == 1 and \
-            isinstance(body[0].body[0], ast.Raise) and not body[0].orelse:
-        t = body[0].test
-        if isinstance(t, ast.Compare) and len(t.ops) == 1 and isinstance(t.ops[0], ast.NotEq):
-            a, b = ast.unparse(t.left), ast.unparse(t.comparators[0])
-            import re as _re
-            for x, y in ((a, b), (b, a)):
-                m = _re.fullmatch(r"round\(self\.bpm, (\d+)\)", x)
-                if m and y == "self.bpm" and 3 <= int(m.group(1)) <= 9:
-                    return "round%s" % m.group(1)
-    return "unknown: " + ast.unparse(body[0])[:120]
+    env = Env({"self.bpm": bpm_ir})
+    conds, srcs = [], []
+    for st in body:
+        if isinstance(st, ast.If) and st.body and all(isinstance(x, ast.Raise) for x in st.body) and not st.orelse:
+            conds.append(fk.tr_cond(st.test, env))
+            srcs.append(ast.unparse(st.test))
+        elif isinstance(st, (ast.Assign, ast.AnnAssign)):
+            straight_line([st], env)
+        elif isinstance(st, (ast.Pass,)) or (isinstance(st, ast.Expr) and isinstance(st.value, ast.Constant)):
+            continue
+        else:
+            raise Unsupported("BPMEvent.__post_init__ statement %s" % type(st).__name__)
+    return conds, srcs
 
 
 def k5(timeout=300, lengths=(1, 2, 3, 4, 5, 6, 7), **kw):
     import chartparse.chart  # noqa: F401
+    import re as _re
     rows, inc, samples = [], [], []
-    shape = _validation_shape()
-    if shape.startswith("unknown"):
-        inc.append("K5: BPMEvent validation has an unrecognised shape (%s)" % shape)
+    tests = None
+
+    def model_n(out):
+        m = _re.search(r"#x([0-9a-fA-F]{16})|#b([01]{64})", out)
+        return int(m.group(1), 16) if m and m.group(1) else (int(m.group(2), 2) if m else None)
+
     for L in lengths:
+        spec = "(fp.div RNE ((_ to_fp_unsigned 11 53) RNE n) %s)" % fp_const(1000.0)
         try:
             ir = _decode_ir(L)
-            bp = BitPrecise(L=L, n_term="n")
+            bp = BitPrecise(L=L, n_term="n", round_nd_term=spec)
             term = bp.f(ir)
         except Unsupported as e:
             inc.append("K5: decode prefix not encodable (L=%d): %s" % (L, e))
             continue
-        spec = "(fp.div RNE ((_ to_fp_unsigned 11 53) RNE n) %s)" % fp_const(1000.0)
-        text = "\n".join([
-            "(set-logic QF_BVFP)", "(declare-const n (_ BitVec 64))",
-            "(assert (bvuge n %s))" % bv(1), "(assert (bvult n %s))" % bv(10 ** L),
-            "(assert (not (fp.eq %s %s)))" % (term, spec), "(check-sat)", "(get-value (n))"])
-        ans, out, dt = run_smt(text, timeout)
+        head = ["(set-logic QF_BVFP)", "(declare-const n (_ BitVec 64))",
+                "(assert (bvuge n %s))" % bv(1), "(assert (bvult n %s))" % bv(10 ** L)]
+        # exactness: the decoded tempo is the binary64 nearest to n/1000
+        ans, out, dt = run_smt("\n".join(head + ["(assert (not (fp.eq %s %s)))" % (term, spec), "(check-sat)", "(get-value (n))"]), timeout)
         rows.append({"name": "K5:decode==RN(n/1000),L=%d" % L, "got": ans, "s": round(dt, 2)})
         if ans == "sat":
-            import re as _re
-            m = _re.search(r"#x([0-9a-fA-F]{16})|#b([01]{64})", out)
-            n = int(m.group(1), 16) if m and m.group(1) else (int(m.group(2), 2) if m else None)
+            n = model_n(out)
             raw = str(n).zfill(L)
             return _res(rows, fail={"detail": "K5 sat: raw_bpm=%s decodes to a float other than %s/1000" % (raw, n),
                                     "call": "raw_bpm=%r" % raw, "replay_src": K5_REPLAY % raw})
         if ans != "unsat":
-            inc.append("K5 L=%d -> %s" % (L, ans))
+            inc.append("K5 exactness L=%d -> %s" % (L, ans))
+        # acceptance: no `if <test>: raise` of the validation fires on the decoded value
+        if True:
+            try:
+                cirs, tests = _validation_conds(ir)
+                conds = [bp.c(c_) for c_ in cirs]
+            except Unsupported as e:
+                if not any("validation" in x for x in inc):
+                    inc.append("K5: validation not encodable: %s" % e)
+                conds = None
+            if conds:
+                cond = conds[0] if len(conds) == 1 else "(or %s)" % " ".join(conds)
+                ans, out, dt = run_smt("\n".join(head + ["(assert %s)" % cond, "(check-sat)", "(get-value (n))"]), timeout)
+                rows.append({"name": "K5:accepted,L=%d" % L, "got": ans, "s": round(dt, 2)})
+                if ans == "sat":
+                    n = model_n(out)
+                    raw = str(n).zfill(L)
+                    return _res(rows, fail={"detail": "K5 sat: raw_bpm=%s is rejected by the tempo validation" % raw,
+                                            "call": "raw_bpm=%r" % raw, "replay_src": K5_REPLAY % raw})
+                if ans != "unsat":
+                    inc.append("K5 acceptance L=%d -> %s" % (L, ans))
         samples.append({"L": L, "decode_term": term[:160]})
-    return _res(rows, inconclusive=inc, samples=samples[:3], extra="validation shape: " + shape)
+    return _res(rows, inconclusive=inc, samples=samples[:3],
+                extra="validation tests: %s" % (tests if tests is not None else "n/a"))
 
 
 # ------------------------------------------------------------------------------------------------
